@@ -125,7 +125,7 @@ def keyword_slots(sg):
 #   D2  write_yaml writes into the section dictionaries of the caller (reactor, inlet_gas, simulation, solver, multi_input)
 #   D3  the YAML writers strip every single quote of the serialiser's text (a species called NO reads back as a boolean)
 #   D4  Nasa9.to_cti does not close its species( directive and uses NASA( for nine coefficients
-PENDING_DEFECTS = {'D1', 'D2', 'D3', 'D4'}
+PENDING_DEFECTS = set()     # D1-D4 of white-box round 3 are repaired in pMuTT (commits ed98c83, 9a02d60, d7bf547, 3cca0bc): armed
 
 
 def yaml_offences(data, path=()):
@@ -228,10 +228,19 @@ def check_cti_directives(run, repo, I, out, rule, construct, key, module, fn, is
               'text: %s' % ('; '.join(bad[:3]), show(out, 300).replace(Z, '')), module, fn)
 
 
+def built(I, ci, objname, **kw):
+    """an object of the package made by its own constructor (under which names a class keeps what it is given is its
+    business; the rule reads and writes the public names only)"""
+    o = I.construct(ci, [], kw, name=objname)
+    if not isinstance(o, Obj):
+        raise Unsupported('%s(...) gives %s for the model object' % (ci.qual, show(o, 80)))
+    return o
+
+
 def species_emitters(run, repo):
     nasa = 'pmutt.empirical.nasa'
     for cname in ('Nasa', 'Nasa9', 'Shomate'):
-        ranks = {'seg0.T_low': 1, 'seg0.T_high': 5, 'seg1.T_low': 5, 'seg1.T_high': 9}
+        ranks = {'seg0.T_low': 1, 'seg0.T_high': 5, 'seg1.T_low': 5, 'seg1.T_high': 9, 'Tl': 1, 'Tm': 5, 'Th': 9}
         I = Interp(repo, order=RankOrder(ranks))
         D = I.D
         name = text(I, 'spname', 4)
@@ -241,35 +250,33 @@ def species_emitters(run, repo):
             ci = repo.cls(nasa + '.Nasa')
             al, ah = coeff_vector(I, 'lo', 7), coeff_vector(I, 'hi', 7)
             al.is_array = ah.is_array = True
-            o = Obj('sp', ci, attrs={'name': name, 'elements': els, 'n_sites': ns, 'a_low': al, 'a_high': ah,
-                                     'T_low': D.sym('Tl'), 'T_mid': D.sym('Tm'), 'T_high': D.sym('Th')})
+            o = built(I, ci, 'sp', name=name, elements=els, n_sites=ns, a_low=al, a_high=ah, T_low=D.sym('Tl'),
+                      T_mid=D.sym('Tm'), T_high=D.sym('Th'))
             want_cti = [D.sym('Tl'), D.sym('Tm')] + al.items + [D.sym('Tm'), D.sym('Th')] + ah.items
             want_T = [D.sym('Tl'), D.sym('Tm'), D.sym('Th')]
             want_data = al.items + ah.items
         elif cname == 'Nasa9':
             ci = repo.cls(nasa + '.Nasa9')
             sci = repo.cls(nasa + '.SingleNasa9')
-            segs = []
+            segs, given = [], {}
             for k in (1, 0):        # deliberately stored out of temperature order
                 a9 = coeff_vector(I, 's%d' % k, 9)
-                a9.is_array = True
-                segs.append(Obj('seg%d' % k, sci, attrs={'a': a9, 'T_low': D.sym('seg%d.T_low' % k),
-                                                       'T_high': D.sym('seg%d.T_high' % k)}))
-            o = Obj('sp', ci, attrs={'name': name, 'elements': els, 'n_sites': ns})
-            set_public(I, o, 'nasas', ListV(segs))
+                given['seg%d' % k] = (D.sym('seg%d.T_low' % k), D.sym('seg%d.T_high' % k), list(a9.items))
+                segs.append(built(I, sci, 'seg%d' % k, a=a9, T_low=D.sym('seg%d.T_low' % k),
+                                  T_high=D.sym('seg%d.T_high' % k)))
+            o = built(I, ci, 'sp', name=name, elements=els, n_sites=ns, nasas=ListV(segs))
             want_cti = []
             for s_ in segs:
-                want_cti += [s_.attrs['T_low'], s_.attrs['T_high']] + s_.attrs['a'].items
+                want_cti += [given[s_.name][0], given[s_.name][1]] + given[s_.name][2]
             srt = sorted(segs, key=lambda s_: ranks[s_.name + '.T_low'])
-            want_T = [s_.attrs['T_low'] for s_ in srt] + [srt[-1].attrs['T_high']]
-            want_data = [x for s_ in srt for x in s_.attrs['a'].items]
+            want_T = [given[s_.name][0] for s_ in srt] + [given[srt[-1].name][1]]
+            want_data = [x for s_ in srt for x in given[s_.name][2]]
         else:
             ci = repo.cls('pmutt.empirical.shomate.Shomate')
             a8 = coeff_vector(I, 'a', 8)
             a8.is_array = True
-            o = Obj('sp', ci, attrs={'name': name, 'elements': els, 'n_sites': ns, 'a': a8, 'T_low': D.sym('Tl'),
-                                     'T_high': D.sym('Th')})
-            set_public(I, o, 'units', 'J/mol/K')
+            o = built(I, ci, 'sp', name=name, elements=els, n_sites=ns, a=a8, T_low=D.sym('Tl'), T_high=D.sym('Th'),
+                      units='J/mol/K')
             want_cti = [D.sym('Tl'), D.sym('Th')] + a8.items[:7]
             want_T = [D.sym('Tl'), D.sym('Th')]
             want_data = a8.items[:7]
@@ -688,7 +695,8 @@ def reaction_emitters(run, repo):
         I = Interp(repo)
         D = I.D
         fr = Frame(I, repo.module('pmutt'), {}, None, None)
-        surf = Obj('surf', repo.cls('pmutt.omkm.phase.InteractingInterface'), attrs={'site_density': D.sym('sden')})
+        surf = built(I, repo.cls('pmutt.omkm.phase.InteractingInterface'), 'surf', name='surf',
+                     site_density=D.sym('sden'))
         g = opaque_species(I, 'g1', 'gas')
         a = opaque_species(I, 'a1', surf)
         b = opaque_species(I, 'a2', surf)
@@ -951,13 +959,15 @@ def other_emitters(run, repo):
     iv = ListV([C(0), D.sym('b1')])
     sl = ListV([D.sym('k0'), D.sym('k1')])
     ni, nj, nid = text(I, 'spi', 3), text(I, 'spj', 4), text(I, 'intid', 6)
-    cov = Obj('cov', ci, attrs={'name_i': ni, 'name_j': nj, 'intervals': iv, 'slopes': sl, 'name': nid})
+    cov = built(I, ci, 'cov', name_i=ni, name_j=nj, intervals=iv, slopes=sl, name=nid)
     conv = D.sym('U<kJ>') / D.sym('U<kcal>')
     owner, fn = repo.find_method(ci, 'to_omkm_yaml')
     run.fn(ci.qual + '.to_omkm_yaml', ci.qual + '.to_cti')
     d = I.call_method(cov, 'to_omkm_yaml', [], {'units': u})
     ok = isinstance(d, DictV) and [I.plain(x) for x in flat(d.d.get('species'))] == [ni, nj] and \
-        d.d.get('coverage-threshold') is iv and I.plain(d.d.get('id')) == nid
+        (d.d.get('coverage-threshold') is iv or (isinstance(d.d.get('coverage-threshold'), ListV) and
+                                                 eq_list(d.d['coverage-threshold'].items, iv.items))) and \
+        I.plain(d.d.get('id')) == nid
     if isinstance(d, DictV):
         check_yaml_plain(run, d, 'DATAFLOW.interaction', 'PiecewiseCovEffect.to_omkm_yaml', 'plain YAML data',
                          owner.module, fn)
@@ -985,8 +995,8 @@ def other_emitters(run, repo):
         uu = Frame(Iu, repo.module('pmutt'), {}, None, None).apply(
             repo.cls('pmutt.omkm.units.Units'), [], {'energy': e_u, 'quantity': q_u}, None)
         slu = ListV([Du.sym('k0'), Du.sym('k1'), Du.sym('k2')])
-        covu = Obj('cov', ci, attrs={'name_i': 'A(S)', 'name_j': 'B(S)', 'name': 'i_0003', 'slopes': slu,
-                                     'intervals': ListV([C(0), Du.sym('b1'), Du.sym('b2')])})
+        covu = built(Iu, ci, 'cov', name_i='A(S)', name_j='B(S)', name='i_0003', slopes=slu,
+                     intervals=ListV([C(0), Du.sym('b1'), Du.sym('b2')]))
         final = '%s/%s' % (e_u, q_u)
         # the conversion kcal/mol -> <energy>/<quantity>, through the table's compound entry or through its parts
         # (energy, then quantity): C12 verifies that the two agree within the roundings of the table's literals
@@ -1046,9 +1056,11 @@ def other_emitters(run, repo):
     bid = text(I, 'bepid', 5)
     rxs = ListV([SegStr.field(text(I, 'rpre', 1, 'alpha'), 1, 'alpha') + '_0001',
                  SegStr.field(Z + 'rpre', 1, 'alpha') + '_0002'])
-    bep = Obj('bep', bci, attrs={'name': bid, 'slope': D.sym('bslope'), 'intercept': D.sym('bicpt'),
-                                 'direction': 'cleavage', 'synthesis_reactions': ListV([]),
-                                 'cleavage_reactions': rxs, 'descriptor': 'delta_H'})
+    bep = built(I, bci, 'bep', name=bid, slope=D.sym('bslope'), intercept=D.sym('bicpt'), direction='cleavage',
+                descriptor='delta_H')
+    # (its members register themselves: what SurfaceReaction.__init__ does for a reaction whose transition state is
+    # the relation)
+    get_public(I, bep, 'cleavage_reactions').items.extend(rxs.items)
     owner, fn = repo.find_method(bci, 'to_omkm_yaml')
     run.fn(bci.qual + '.to_omkm_yaml', bci.qual + '.to_cti')
     d = I.call_method(bep, 'to_omkm_yaml', [], {'units': u})
@@ -1076,10 +1088,10 @@ def other_emitters(run, repo):
                    None)
     bid2 = text(I2, 'bepid', 5)
     mem = {k_: Obj(k_, attrs={'id': k_}) for k_ in ('r_0001', 'r_0002', 'r_0005')}
-    bep2 = Obj('bep', bci, attrs={'name': bid2, 'slope': D2.sym('bslope'), 'intercept': D2.sym('bicpt'),
-                                  'direction': 'cleavage', 'synthesis_reactions': ListV([mem['r_0005']]),
-                                  'cleavage_reactions': ListV([mem['r_0001'], mem['r_0002']]),
-                                  'descriptor': 'delta_H'})
+    bep2 = built(I2, bci, 'bep', name=bid2, slope=D2.sym('bslope'), intercept=D2.sym('bicpt'), direction='cleavage',
+                 descriptor='delta_H')
+    get_public(I2, bep2, 'synthesis_reactions').items.append(mem['r_0005'])
+    get_public(I2, bep2, 'cleavage_reactions').items.extend([mem['r_0001'], mem['r_0002']])
     owner, fn = repo.find_method(bci, 'to_cti')
     out = I2.call_method(bep2, 'to_cti', [], {'units': u2})
     if isinstance(out, Raised) or not isinstance(out, (str, SegStr)):
